@@ -166,6 +166,17 @@ struct Item {
     /// cause class when e != e2
     cls: &'static str,
     unmapped: bool,
+    /// span not spelled out in the record's bases (VCF: from INFO END / SVLEN / FORMAT LEN)
+    sym: bool,
+}
+
+const WINDOW: u64 = 1 << 14;
+
+impl Item {
+    /// the record reaches beyond the 16 kb window that holds its start
+    fn leaves_start_window(&self) -> bool {
+        (self.e - 1) / WINDOW > (self.s.max(1) - 1) / WINDOW
+    }
 }
 
 #[derive(Clone, Debug)]
@@ -261,6 +272,36 @@ fn gen_regions(rng: &mut Rng, refs: &[(String, u64)], items: &[Item], maxp: u64,
         }
     };
     gap(rng, &mut out);
+    // a placed read flagged unmapped must be returned by a region query that covers it
+    let pu: Vec<&&Item> = placed.iter().filter(|i| i.unmapped).collect();
+    if !pu.is_empty() {
+        let it = **rng.pick(&pu);
+        let p = if rng.chance(1, 2) { it.s } else { it.e };
+        out.push(q(it.rid.unwrap(), Some(p), Some(p)));
+    }
+    // a record that leaves the 16 kb window of its start, asked for only beyond that window
+    // (preferring records whose span comes from END / SVLEN / LEN rather than from their bases)
+    let mut far: Vec<&&Item> = placed.iter().filter(|i| i.leaves_start_window() && i.sym && i.e == i.e2).collect();
+    if far.is_empty() {
+        far = placed.iter().filter(|i| i.leaves_start_window() && i.e == i.e2).collect();
+    }
+    if !far.is_empty() {
+        for _ in 0..2 {
+            let it = **rng.pick(&far);
+            let first = ((it.s - 1) / WINDOW + 1) * WINDOW + 1; // first position of the next window
+            let a = match rng.below(3) {
+                0 => it.e,
+                1 => first,
+                _ => rng.range(first, it.e),
+            };
+            let b = match rng.below(3) {
+                0 => a,
+                1 => (a + rng.below(WINDOW)).min(maxp),
+                _ => it.e.max(a),
+            };
+            out.push(q(it.rid.unwrap(), Some(a), Some(b)));
+        }
+    }
     let mut guard = 0;
     while out.len() < n && guard < 10 * n {
         guard += 1;
@@ -413,7 +454,7 @@ fn layout(rng: &mut Rng, len: u64, shifts: &[(u64, u64)], pr: &Profile) -> Vec<(
             _ => rng.below(d + 1),
         };
         let w = 1u64 << (ms + 3 * lvl);
-        let seg = if pr.bulk && rng.chance(1, 2) { 4 } else { rng.below(5) };
+        let seg = if pr.bulk && rng.chance(1, 2) { 4 } else { rng.below(6) };
         match seg {
             0 | 1 => {
                 // cluster at the next edge of this level at or after cur
@@ -448,6 +489,36 @@ fn layout(rng: &mut Rng, len: u64, shifts: &[(u64, u64)], pr: &Profile) -> Vec<(
                         1 => 1,
                         _ => rng.below(60),
                     };
+                }
+                cur = s;
+            }
+            5 => {
+                // clean edge: nothing crosses the edge; the last records before it end exactly on
+                // it, the next ones start right after it (the pruning offset of the window after
+                // the edge is then the end of the chunk that holds the records before it)
+                let k = cur.div_ceil(w).max(1) + if cur % w == 0 { 1 } else { 0 };
+                let edge = k * w;
+                if edge + 1 > len || edge < cur + 2 {
+                    continue;
+                }
+                let mut s = cur.max(edge.saturating_sub(rng.range(2, 300)).max(1));
+                let n = rng.range(2, 12);
+                for i in 0..n {
+                    if s > edge {
+                        break;
+                    }
+                    let room = edge - s + 1;
+                    let span = if i + 1 == n || rng.chance(1, 3) { room } else { rng.range(0, room) };
+                    out.push((s, span, false));
+                    s += rng.below(room.min(30));
+                }
+                let mut s = edge + 1 + if rng.chance(1, 2) { 0 } else { rng.below(40) };
+                for _ in 0..rng.range(2, 12) {
+                    if s > len {
+                        break;
+                    }
+                    out.push((s, small(rng), false));
+                    s += rng.below(30);
                 }
                 cur = s;
             }
@@ -702,6 +773,18 @@ fn judge_regions(
                             .map(|i| (i.cls, i.name.clone()))
                             .unwrap_or(("span-rule-differs-from-spec", String::new()));
                         v.fail(80, culprit.0, format!("record {} {fmt}-{label} {detail}", culprit.1));
+                    } else if cls == "missing-record" {
+                        let gs: HashSet<&String> = got.iter().collect();
+                        let missing: Vec<&Item> = want.iter().filter(|n| !gs.contains(n)).map(|n| by_name[n]).collect();
+                        let lo = q.lo.unwrap_or(1);
+                        let what = if missing.iter().all(|i| i.unmapped) {
+                            "misses-placed-read-flagged-unmapped"
+                        } else if missing.iter().all(|i| i.leaves_start_window() && (lo - 1) / WINDOW > (i.s - 1) / WINDOW) {
+                            if missing.iter().all(|i| i.sym) { "misses-end-svlen-record-beyond-its-start-window" } else { "misses-long-record-beyond-its-start-window" }
+                        } else {
+                            "missing-record"
+                        };
+                        v.fail(20, format!("{fmt}-{label}-query-{what}"), format!("first missing {} {}-{} {detail}", missing[0].name, missing[0].s, missing[0].e));
                     } else {
                         v.fail(20, format!("{fmt}-{label}-query-{cls}"), detail);
                     }
@@ -1066,7 +1149,7 @@ fn run_bam(c: &Case) -> Obs {
             let s = r.pos.unwrap_or(0);
             let span = cigar_ref_len(&r.cigar);
             let e = if span == 0 { s } else { s + span - 1 };
-            Item { name: r.name.clone(), rid: r.rid, s, e, e2: e, cls: "", unmapped: r.flags & 4 != 0 }
+            Item { name: r.name.clone(), rid: r.rid, s, e, e2: e, cls: "", unmapped: r.flags & 4 != 0, sym: false }
         })
         .collect();
 
@@ -1519,7 +1602,16 @@ fn run_vcf_like(c: &Case, bcf_fmt: bool) -> Obs {
     let items: Vec<Item> = f
         .recs
         .iter()
-        .map(|r| Item { name: r.id.clone(), rid: Some(r.chrom), s: r.pos, e: r.spec_end, e2: r.nd_end, cls: r.cls, unmapped: false })
+        .map(|r| Item {
+            name: r.id.clone(),
+            rid: Some(r.chrom),
+            s: r.pos,
+            e: r.spec_end,
+            e2: r.nd_end,
+            cls: r.cls,
+            unmapped: false,
+            sym: r.refb.len() as u64 != r.spec_end - r.pos + 1,
+        })
         .collect();
 
     let data = match guarded(AssertUnwindSafe(|| write_vcf_like(&f, &header, bcf_fmt))) {
